@@ -21,6 +21,19 @@ import sys, os, re, hashlib, json
 sys.path.insert(0, os.path.dirname(os.path.abspath(__file__)))
 from rustparse import parse_file, ParseError, walk_fns
 
+def rust_expr(src, **subst):
+    """parse a Rust expression; identifiers named in `subst` are replaced by the given ASTs"""
+    from rustparse import Parser, lex
+    e = Parser(lex(src), '<desugar>').expr()
+    def rep(n):
+        if isinstance(n, tuple):
+            if len(n) >= 2 and n[0] == 'path' and isinstance(n[1], list) and len(n[1]) == 1 and n[1][0] in subst: return subst[n[1][0]]
+            if len(n) >= 2 and n[0] == 'pid' and n[1] in subst and subst[n[1]][0] == 'pat': return subst[n[1]][1]
+            return tuple(rep(x) for x in n)
+        if isinstance(n, list): return [rep(x) for x in n]
+        return n
+    return rep(e)
+
 class Unsupported(Exception):
     pass
 class Impure(Exception):
@@ -38,19 +51,42 @@ FILES = [  # (path, module name used for free functions and constants)
     ('src/bit_vectors/rank9sel/inner.rs', 'rank9sel_inner'),
     ('src/int_vectors/compact_vector.rs', 'compact_vector'),
     ('src/mii_sequences/elias_fano.rs', 'elias_fano'),
+    ('src/mii_sequences/elias_fano/iter.rs', 'iter'),
+    ('src/bit_vectors.rs', 'bit_vectors'),
+    ('src/int_vectors.rs', 'int_vectors'),
+    ('src/bit_vectors/rank9sel.rs', 'rank9sel'),
+    ('src/bit_vectors/darray/inner.rs', 'darray_inner'),
+    ('src/bit_vectors/darray.rs', 'darray'),
+    ('src/bit_vectors/sarray.rs', 'sarray'),
+    ('src/int_vectors/prefix_summed_elias_fano.rs', 'psef'),
+    ('src/int_vectors/dacs_byte.rs', 'dacs_byte'),
+    ('src/int_vectors/dacs_opt.rs', 'dacs_opt'),
+    ('src/char_sequences/wavelet_matrix.rs', 'wavelet_matrix'),
 ]
 
 # Rust struct -> (Lean structure, {rust field: lean field})
 STRUCTS = {
     'BitVector': ('Sucds.BV', {'words': 'words', 'len': 'len'}),
     'Rank9SelIndex': ('Sucds.R9Index', {'len': 'len', 'block_rank_pairs': 'pairs', 'select1_hints': 'sel1', 'select0_hints': 'sel0'}),
+    'Rank9Sel': ('Sucds.R9', {'bv': 'bv', 'rs': 'rs'}),
+    'DArrayIndex': ('Sucds.DAIndex', {'block_inventory': 'blockInv', 'subblock_inventory': 'subInv', 'overflow_positions': 'overflow', 'num_positions': 'numPos', 'over_one': 'overOne'}),
+    'SArray': ('Sucds.SA', {'ef': 'ef', 'num_bits': 'numBits', 'num_ones': 'numOnes', 'has_rank': 'hasRank'}),
+    'PrefixSummedEliasFano': ('Sucds.PS', {'ef': 'ef'}),
+    'DacsByte': ('Sucds.DacB', {'data': 'data', 'flags': 'flags'}),
+    'DacsOpt': ('Sucds.DacO', {'data': 'data', 'flags': 'flags'}),
+    'EliasFano': ('Sucds.EF', {'high_bits': 'high', 'low_bits': 'low', 'low_len': 'lowLen', 'universe': 'univ'}),
+    'DArray': ('Sucds.DA', {'bv': 'bv', 's1': 's1', 's0': 's0', 'r9': 'r9'}),
     'CompactVector': ('Sucds.CV', {'chunks': 'chunks', 'len': 'len', 'width': 'width'}),
     'EliasFanoBuilder': ('Sucds.EFB', {'high_bits': 'high', 'low_bits': 'low', 'universe': 'univ', 'num_vals': 'numVals', 'pos': 'pos', 'last': 'last', 'low_len': 'lowLen'}),
 }
 # table constants that gen_consts.py already extracts (as `List Nat`)
+# generic structures are translated once per listed instantiation of their type parameter
+INSTANTIATE = {'WaveletMatrix': ('B', ['Rank9Sel', 'DArray', 'BitVector']), 'wavelet_matrix_Iter': ('B', ['Rank9Sel', 'DArray', 'BitVector'])}
+# an iterator handed to an `impl IntoIterator<Item = T>` parameter is the list of its items; configured per constructor
+ITER_AS_LIST = {('BitVector', 'iter'): ('Sucds.BV.toList', ('list', 'bool'))}
 TABLES = {'SELECT_IN_BYTE': 'Gen.SELECT_IN_BYTE.toArray', 'DEBRUIJN64_MAPPING': 'Gen.DEBRUIJN64_MAPPING.toArray'}
 
-SKIP_FNS = {'serialize_into', 'deserialize_from', 'size_in_bytes', 'size_of', 'fmt', 'default', 'capacity', 'shrink_to_fit'}
+SKIP_FNS = {'serialize_into', 'deserialize_from', 'size_in_bytes', 'size_of', 'fmt', 'capacity', 'shrink_to_fit'}
 
 INT_TYPES = {'usize', 'u64', 'u32', 'u16', 'u8', 'u128'}
 
@@ -76,18 +112,29 @@ def conv_type(t, ctx=None):
         if n == 'bool': return 'bool'
         if n == 'Option': return ('opt', conv_type(args[0], ctx))
         if n == 'Result': return ('res', conv_type(args[0], ctx))
-        if n == 'Vec': return ('vec', conv_type(args[0], ctx))
+        if n == 'Vec': return ('vec', conv_type(args[0], ctx) if args else None)
+        if n == 'Range': return 'range'
         if n == 'Self' and ctx is not None and ctx.owner: return ('struct', ctx.owner)
         if ctx is not None and n in ctx.generic_lists: return ('list', ctx.generic_lists[n])
-        if n in ('isize', 'i64', 'i32', 'f64', 'f32'): raise Unsupported('type %s' % n)
-        if ctx is not None: return ('struct', ctx.crate.qual(ctx.module, n))
+        if ctx is not None and n in getattr(ctx, 'generic_prims', ()): return 'usize'
+        if n == 'isize': return 'isize'
+        if n in ('i64', 'i32', 'f64', 'f32'): raise Unsupported('type %s' % n)
+        if ctx is not None:
+            q = ctx.crate.qual(ctx.module, n)
+            if q in INSTANTIATE and args:
+                a0 = [a for a in args if a and a[0] != "'"]
+                if a0 and a0[0][0] == 'path': return ('struct', '%s_%s' % (q, a0[0][1][-1]))
+            return ('struct', q)
         return ('struct', n)
+    if tag == 'infer': return None
     if tag == 'impl': raise Unsupported('impl-trait type')
     raise Unsupported('type %r' % (t,))
 
 def lean_type(t):
     if t == 'usize': return 'Nat'
     if t == 'bool': return 'Bool'
+    if t == 'isize': return 'Int'
+    if t == 'range': return '(Nat × Nat)'
     if t == 'unit': return 'Unit'
     if t is None: raise Unsupported('unknown type')
     if t[0] == 'opt': return '(Option %s)' % lean_type(t[1])
@@ -133,6 +180,16 @@ def matching_paren(s):
 # ------------------------------------------------------------------------------------------------
 # the crate-level symbol table
 
+def subst_ast(node, var, rep):
+    """replace the type parameter `var` by the type name `rep` everywhere in an AST (types and path expressions)"""
+    if isinstance(node, tuple):
+        if len(node) >= 2 and node[0] == 'path' and isinstance(node[1], list) and node[1] and node[1][0] == var:
+            return ('path', [rep] + node[1][1:]) + tuple(subst_ast(x, var, rep) for x in node[2:])
+        return tuple(subst_ast(x, var, rep) for x in node)
+    if isinstance(node, list): return [subst_ast(x, var, rep) for x in node]
+    if isinstance(node, dict): return dict((k, subst_ast(v, var, rep)) for k, v in node.items())
+    return node
+
 class FnInfo:
     def __init__(self, ast, impl, module, path, crate=None):
         self.ast = ast; self.name = ast[1]; self.module = module; self.path = path
@@ -149,6 +206,7 @@ class FnInfo:
         self.lean_name = None     # set when emitted
         self.pure = None; self.ret_t = None; self.inouts = None; self.params_t = None
         self.state = 'new'        # new | busy | done | failed
+        self.recursive = False
         self.error = None; self.text = None
     def key(self):
         return (self.owner or self.module, self.name)
@@ -158,7 +216,7 @@ class Crate:
         global CRATE
         CRATE = self
         self.repo = repo; self.fns = {}; self.by_name = {}; self.consts = {}; self.structs = {}; self.order = []; self.struct_order = {}; self.derives = {}
-        self.struct_modules = {}; self.struct_ast = {}; self.ftypes = {}; self.auto_used = []
+        self.struct_modules = {}; self.struct_ast = {}; self.ftypes = {}; self.auto_used = []; self.imports = {}
         self.parse_errors = []
         parsed = []
         for path, module in FILES:
@@ -168,12 +226,39 @@ class Crate:
                 self.parse_errors.append('%s: %s' % (path, e)); continue
             parsed.append((items, module, path))
             self.collect_structs(items, module)
+            src = open(os.path.join(repo, path)).read()
+            for m in re.finditer(r'\buse\s+([\w:]+)::(\w+|\{[^}]*\})\s*;', src):
+                names = [x.strip() for x in m.group(2).strip('{}').split(',')] if m.group(2).startswith('{') else [m.group(2)]
+                for n in names:
+                    if n: self.imports[(module, n)] = m.group(1).split('::')
         for (module, name), it in self.struct_ast.items():
             q = self.qual(module, name)
             self.structs[q] = dict((f, t) for f, t in it[3]); self.struct_order[q] = [f for f, _ in it[3]]; self.derives[q] = it[5]
             self.struct_home = getattr(self, 'struct_home', {}); self.struct_home[q] = module
+        for q in list(self.structs):
+            if q in INSTANTIATE:
+                var, reps = INSTANTIATE[q]
+                for rep in reps:
+                    qi = '%s_%s' % (q, rep)
+                    self.structs[qi] = dict((f, subst_ast(t, var, rep)) for f, t in self.structs[q].items())
+                    self.struct_order[qi] = self.struct_order[q]; self.derives[qi] = self.derives[q]; self.struct_home[qi] = self.struct_home[q]
+        self.traits = {}; self.impls = []
         for items, module, path in parsed:
             self.collect(items, module, path)
+        # default methods of traits, instantiated for every implementing type that does not override them
+        for module, path, it in self.impls:
+            tname = it[2][1][-1] if it[2][0] == 'path' else None
+            if tname not in self.traits: continue
+            tmod, tpath, tr = self.traits[tname]
+            have = set(x[1] for x in it[4] if x[0] == 'fn')
+            assoc = dict((x[1], x[2]) for x in it[4] if x[0] == 'type')
+            for f in tr[2]:
+                if f[0] == 'fn' and f[5] is not None and f[1] not in have:
+                    fi = FnInfo(f, (it[2], it[3], it[1], assoc), module, tpath, self)
+                    fi.trait = tname
+                    k = fi.key()
+                    if k in self.fns: k = (k[0], tname + '_' + fi.name)
+                    fi.k = k; self.fns[k] = fi; self.by_name.setdefault(fi.name, []).append(fi)
     def collect_structs(self, items, module):
         for it in items:
             if it[0] == 'struct':
@@ -183,15 +268,23 @@ class Crate:
         ms = self.struct_modules.get(name, [])
         if len(ms) <= 1: return name
         if module in ms: return '%s_%s' % (module, name)
+        imp = self.imports.get((module, name))
+        if imp:
+            for seg in reversed(imp):
+                for m in ms:
+                    if m == seg or m.endswith('_' + seg): return '%s_%s' % (m, name)
         return '%s_%s' % (ms[0], name)
     def ftype(self, q, f):
         """converted type of field `f` of struct `q` (in the struct's own module context)"""
         key = (q, f)
         if key not in self.ftypes:
             class C: pass
-            c = C(); c.crate = self; c.module = self.struct_home[q]; c.owner = q; c.generic_lists = {}
+            c = C(); c.crate = self; c.module = self.struct_home[q]; c.owner = q; c.generic_lists = {}; c.generic_prims = set()
             self.ftypes[key] = conv_type(self.structs[q][f], c)
         return self.ftypes[key]
+    def auto_fields(self, q):
+        """field names of a generated structure: a field that shares its name with a method gets a trailing `_`"""
+        return dict((f, f + '_' if self.lookup(q, f) is not None else f) for f in self.struct_order[q])
     def auto_struct(self, q):
         """a struct without a model counterpart gets a generated Lean structure (same field names)"""
         if q in STRUCTS: return False
@@ -213,9 +306,22 @@ class Crate:
                 self.consts[(module, it[1])] = it
             elif it[0] == 'mod':
                 self.collect(it[2], module, path)
+            elif it[0] == 'trait':
+                self.traits[it[1]] = (module, path, it)
+            elif it[0] == 'impl' and it[2] is not None:
+                self.impls.append((module, path, it))
+        fns = []
         for impl, f in walk_fns(items):
             if f[5] is None: continue
-            fi = FnInfo(f, impl, module, path, self)
+            q = self.qual(module, impl[1][1][-1]) if impl is not None and impl[1][0] == 'path' else None
+            if q in INSTANTIATE:
+                var, reps = INSTANTIATE[q]
+                for rep in reps:
+                    fi = FnInfo(subst_ast(f, var, rep), subst_ast(impl, var, rep), module, path, self)
+                    fi.owner = '%s_%s' % (q, rep); fns.append(fi)
+            else:
+                fns.append(FnInfo(f, impl, module, path, self))
+        for fi in fns:
             k = fi.key()
             if k in self.fns:
                 # inherent method and trait method of the same name, or cfg-duplicates: qualify by trait
@@ -279,10 +385,13 @@ class Ctx:
         self.env = {}             # rust name -> (lean term, type)
         self.counter = {}
         self.frames = []
+        self.generic_prims = set()
         self.generic_lists = {}   # generic type parameter name -> element type (for `I: IntoIterator<Item = T>`)
         self.inouts = []          # rust names returned together with the result (`&mut self`, `&mut` params)
         self.ret_t = None
         self.aliases = {}         # rust name -> place it dereferences to (for `let x = v.last_mut().unwrap()`)
+        self.writeback = {}       # rust name bound by `if let Some(x) = &mut place`: assignments to x are written back as `place = Some(x)`
+        self.fnvars = {}          # rust name -> (condition term, fn if true, fn if false): `let w = if c { Self::f } else { Self::g };`
         self.uses_c = False; self.eff = False; self.pure_mode = False
     def fresh(self, hint):
         hint = lean_ident(hint)
@@ -313,6 +422,7 @@ class Translator:
         e = strip_paren(e); t = e[0]
         if t == 'int': return 'usize'
         if t == 'bool': return 'bool'
+        if t == 'leanapp': return e[1][1]
         if t == 'path':
             segs = e[1]
             if len(segs) == 1:
@@ -331,6 +441,7 @@ class Translator:
                 fs = self.crate.structs.get(rt[1])
                 if fs and e[2] in fs: return self.crate.ftype(rt[1], e[2])
             if rt and rt[0] == 'tuple' and e[2].isdigit(): return rt[1][int(e[2])]
+            if rt == 'range' and e[2] in ('start', 'end'): return 'usize'
             return None
         if t == 'index':
             rt = self.typeof(e[1], ctx)
@@ -358,6 +469,10 @@ class Translator:
                 if n == 'Some': return ('opt', self.typeof(e[2][0], ctx))
                 if n == 'Ok': return ('res', self.typeof(e[2][0], ctx))
                 if n == 'Err': return ('res', None)
+                if f[1][-2:] == ['usize', 'from']: return 'usize'
+                if len(f[1]) == 2 and f[1][0] in ('u8', 'u16', 'u32') and n == 'try_from': return ('res', 'usize')
+                if len(f[1]) >= 2 and f[1][-2] in self.crate.traits and e[2]: return self.typeof(('mcall', e[2][0], n, e[2][1:], None), ctx)
+                if len(f[1]) == 1 and n in ctx.fnvars: return ctx.fnvars[n][1].ret_t
                 if n == 'default' and len(f[1]) == 2: return ('struct', ctx.owner if f[1][0] == 'Self' else self.crate.qual(ctx.module, f[1][0]))
                 if len(f[1]) == 2 and f[1][0] == 'Vec': return ('vec', None)
                 fi = self.resolve_path_fn(f[1], ctx)
@@ -379,7 +494,7 @@ class Translator:
             return 'unit'
         if t == 'cfg': return self.typeof(e[2], ctx)
         if t == 'struct': return ('struct', ctx.owner if e[1][-1] == 'Self' else self.crate.qual(ctx.module, e[1][-1]))
-        if t == 'range': return ('range',)
+        if t == 'range': return 'range'
         return None
 
     def typeof_block(self, b, ctx):
@@ -396,13 +511,20 @@ class Translator:
             ctx.env = saved
 
     def builtin_method_type(self, rt, m, e, ctx):
+        if m == 'to_usize': return ('opt', 'usize')
+        if m in ('ok_or_else', 'ok_or') and rt and rt[0] == 'opt': return ('res', rt[1])
+        if m == 'and_then' and rt and rt[0] == 'opt' and e[3] and strip_paren(e[3][-1])[0] == 'closure': return None
         if m in ('wrapping_shl', 'wrapping_shr', 'wrapping_mul', 'wrapping_add', 'wrapping_sub', 'saturating_add', 'saturating_sub', 'count_ones', 'trailing_zeros',
                  'leading_zeros', 'min', 'max', 'pow'): return 'usize'
+        if rt == 'range':
+            if m == 'len': return 'usize'
+            if m == 'is_empty': return 'bool'
         if rt and rt[0] in ('vec', 'list'):
             if m == 'len': return 'usize'
             if m == 'is_empty': return 'bool'
             if m in ('last', 'first', 'get'): return ('opt', rt[1])
-            if m in ('iter', 'to_vec', 'clone'): return rt
+            if m in ('iter', 'into_iter', 'to_vec', 'clone'): return rt
+            if m == 'sum': return 'usize'
         if rt and rt[0] == 'opt':
             if m in ('unwrap', 'expect', 'unwrap_or'): return rt[1]
             if m in ('is_some', 'is_none'): return 'bool'
@@ -437,7 +559,12 @@ class Translator:
             return self.crate.lookup(ctx.module, n) if not ctx.owner else (self.crate.fns.get((ctx.module, n)) or next((f for f in self.crate.by_name.get(n, []) if f.owner is None and f.module == ctx.module), None))
         q = segs[-2]
         if q == 'Self': q = ctx.owner
-        else: q = self.crate.qual(ctx.module, q)
+        else:
+            q = self.crate.qual(ctx.module, q)
+            if q in INSTANTIATE and ctx.owner:
+                # same instantiation as the caller (`Iter::new(self)` inside `WaveletMatrix<B>`)
+                for rep in INSTANTIATE[q][1]:
+                    if ctx.owner.endswith('_' + rep): q = '%s_%s' % (q, rep)
         return self.crate.lookup(q, n)
 
     def ret_type_of(self, fi):
@@ -452,6 +579,8 @@ class Translator:
         fi = ctx.fi
         def scan(name, bounds):
             for b in bounds or []:
+                if isinstance(b, tuple) and b[0] == 'path' and b[1][-1] == 'ToPrimitive':
+                    ctx.generic_prims.add(name)      # instantiated at `usize` (the element type the model and the harness use)
                 if isinstance(b, tuple) and b[0] == 'path' and b[1][-1] in ('IntoIterator', 'Iterator'):
                     for a in b[2]:
                         if a[0] == 'assoc' and a[1] == 'Item':
@@ -467,7 +596,7 @@ class Translator:
     def sinfo(self, q):
         """(Lean structure name, {rust field: lean field}) of a struct"""
         if q in STRUCTS: return STRUCTS[q]
-        if self.crate.auto_struct(q): return (q, dict((f, f) for f in self.crate.struct_order[q]))
+        if self.crate.auto_struct(q): return (q, self.crate.auto_fields(q))
         raise Unsupported('struct %s has no Lean structure' % q)
 
     def has_struct(self, q):
@@ -506,8 +635,12 @@ class Translator:
 
     def cast(self, term, from_t, to_ast, ctx):
         to = to_ast[1][-1] if to_ast[0] == 'path' else None
+        if to == 'isize':
+            if from_t == 'isize': return (term, 'isize')
+            return ('(RS.isizeOfUsize %s)' % paren(term), 'isize')
         if to in ('usize', 'u64', 'u128'):
             if from_t == 'bool': return ('(RS.b2u %s)' % paren(term), 'usize')
+            if from_t == 'isize': return ('(RS.usizeOfIsize %s)' % paren(term), 'usize')
             return (term, 'usize')
         if to == 'u32': return ('(%s %% 4294967296)' % paren(term), 'usize')
         if to == 'u16': return ('(%s %% 65536)' % paren(term), 'usize')
@@ -517,6 +650,11 @@ class Translator:
     def combine_binary(self, op, a, at, b, bt, ctx, rhs_ast=None):
         """-> ('pure'|'eff', term, type)"""
         pa, pb = paren(a), paren(b)
+        if at == 'isize' or bt == 'isize':
+            if op in ('+', '-'): return ('eff', 'RS.%s %s %s %s' % ('iadd' if op == '+' else 'isub', ctx.c(), pa, pb), 'isize')
+            if op in CMP and op not in ('==', '!='): return ('pure', '(decide ((%s : Int) %s %s))' % (pa, CMP[op], pb), 'bool')
+            if op in ('==', '!='): return ('pure', '((%s : Int) %s %s)' % (pa, op, pb), 'bool')
+            raise Unsupported('isize operator %s' % op)
         if op in ARITH:
             return ('eff', '%s %s %s %s' % (ARITH[op], ctx.c(), pa, pb), 'usize')
         if op in BITOPS:
@@ -544,7 +682,9 @@ class Translator:
         if op == '!':
             if at == 'bool': return ('(!%s)' % paren(a), 'bool')
             return ('(wnot %s)' % paren(a), 'usize')
-        if op in ('&', '&mut', '*'): return (a, at)
+        if op in ('&', '*'): return (a, at)
+        if op == '&mut': raise Unsupported('`&mut` expression outside a call argument / `if let` scrutinee')
+        if op == '-' and at == 'isize': return ('eff', 'RS.ineg c %s' % paren(a), 'isize')
         raise Unsupported('unary %s' % op)
 
     PURE_USIZE_METHODS = {'wrapping_mul': 'RS.wrappingMul', 'wrapping_add': 'RS.wrappingAdd', 'wrapping_sub': 'RS.wrappingSub',
@@ -555,14 +695,19 @@ class Translator:
         r = paren(recv)
         if m in self.PURE_USIZE_METHODS and len(args) == 1 and rt in ('usize', None):
             return ('(%s %s %s)' % (self.PURE_USIZE_METHODS[m], r, paren(args[0][0])), 'usize')
+        if rt == 'usize' and m == 'to_usize' and not args: return ('(some %s)' % r, ('opt', 'usize'))
         if rt == 'usize' or rt is None:
             if m == 'count_ones' and not args: return ('(RS.countOnes %s)' % r, 'usize')
             if m == 'trailing_zeros' and not args: return ('(RS.trailingZeros %s)' % r, 'usize')
             if m == 'leading_zeros' and not args: return ('(RS.leadingZeros %s)' % r, 'usize')
+        if rt == 'range':
+            if m == 'len' and not args: return ('(%s.2 - %s.1)' % (r, r), 'usize')
+            if m == 'is_empty' and not args: return ('(decide (%s.2 ≤ %s.1))' % (r, r), 'bool')
+            if m == 'clone' and not args: return (recv, rt)
         if rt and rt[0] == 'vec':
             if m == 'len' and not args: return ('%s.size' % r, 'usize')
             if m == 'is_empty' and not args: return ('(%s.size == 0)' % r, 'bool')
-            if m in ('iter', 'clone', 'to_vec', 'as_slice') and not args: return (recv, rt)
+            if m in ('iter', 'into_iter', 'clone', 'to_vec', 'as_slice') and not args: return (recv, rt)
             if m == 'last' and not args: return ('%s.back?' % r, ('opt', rt[1]))
             if m == 'first' and not args: return ('%s[0]?' % r, ('opt', rt[1]))
             if m == 'get' and len(args) == 1: return ('%s[%s]?' % (r, args[0][0]), ('opt', rt[1]))
@@ -585,6 +730,10 @@ class Translator:
         e = strip_paren(e); t = e[0]
         if t == 'int': return (str(e[1]), 'usize')
         if t == 'bool': return ('true' if e[1] else 'false', 'bool')
+        if t == 'str': return ('""', 'str')
+        if t == 'leanapp':
+            a, at = self.pure(e[2], ctx)
+            return ('(%s %s)' % (e[1][0], paren(a)), e[1][1])
         if t == 'path':
             segs = e[1]
             if len(segs) == 1:
@@ -601,8 +750,12 @@ class Translator:
             c = self.const_term(segs[-1], ctx, segs[-2])
             if c is not None: return (c, ('vec', 'usize') if segs[-1] in TABLES else 'usize')
             raise Unsupported('path %s' % '::'.join(segs))
+        if t == 'range' and e[1] is not None and e[2] is not None and not e[3]:
+            a, _ = self.pure(e[1], ctx); b, _ = self.pure(e[2], ctx)
+            return ('(%s, %s)' % (a, b), 'range')
         if t == 'field':
             base, bt = self.pure(e[1], ctx)
+            if bt == 'range' and e[2] in ('start', 'end'): return ('%s.%s' % (paren(base), '1' if e[2] == 'start' else '2'), 'usize')
             if bt and bt[0] == 'struct':
                 fm = self.sinfo(bt[1])[1]
                 if e[2] not in fm or e[2] not in self.crate.structs.get(bt[1], {}): raise Unsupported('field %s.%s' % (bt[1], e[2]))
@@ -613,7 +766,9 @@ class Translator:
         if t == 'unary':
             if e[1] == '*' and strip_paren(e[2])[0] == 'path' and strip_paren(e[2])[1][0] in ctx.aliases: raise Impure()
             a, at = self.pure(e[2], ctx)
-            return self.unary_term(e[1], a, at)
+            u = self.unary_term(e[1], a, at)
+            if u[0] == 'eff': raise Impure()
+            return u
         if t == 'binary':
             a, at = self.pure(e[2], ctx); b, bt = self.pure(e[3], ctx)
             kind, term, ty = self.combine_binary(e[1], a, at, b, bt, ctx, e[3])
@@ -634,24 +789,32 @@ class Translator:
                 a, at = self.pure(e[2][0], ctx)
                 return (('some %s' if n == 'Some' else 'RS.Res.ok %s') % paren(a), ('opt' if n == 'Some' else 'res', at))
             if n == 'Err': return ('RS.Res.err', ('res', None))
+            if len(f[1]) == 1 and n in ctx.fnvars: raise Impure()
             if n == 'default' and len(f[1]) == 2 and not e[2]:
                 tn = ctx.owner if f[1][0] == 'Self' else self.crate.qual(ctx.module, f[1][0])
-                return (self.default_term(('struct', tn), ctx), ('struct', tn))
+                if self.crate.lookup(tn, 'default') is None:
+                    return (self.default_term(('struct', tn), ctx), ('struct', tn))
+            if f[1][-2:] == ['usize', 'from'] and len(e[2]) == 1: return self.pure(('cast', e[2][0], ('path', ['usize'], [])), ctx)
+            if len(f[1]) == 2 and f[1][0] in ('u8', 'u16', 'u32') and n == 'try_from' and len(e[2]) == 1:
+                a, at = self.pure(e[2][0], ctx); lim = {'u8': 256, 'u16': 65536, 'u32': 4294967296}[f[1][0]]
+                return ('(if %s < %d then RS.Res.ok %s else RS.Res.err)' % (paren(a), lim, paren(a)), ('res', 'usize'))
+            if len(f[1]) >= 2 and f[1][-2] in self.crate.traits and e[2]:
+                return self.pure(('mcall', e[2][0], n, e[2][1:], None), ctx)
             if len(f[1]) == 2 and f[1][0] == 'Vec' and n == 'new' and not e[2]: return ('#[]', ('vec', None))
             if len(f[1]) == 2 and f[1][0] == 'Vec' and n == 'with_capacity' and len(e[2]) == 1:
                 self.pure(e[2][0], ctx); return ('#[]', ('vec', None))
             fi = self.resolve_path_fn(f[1], ctx)
             if fi is None: raise Unsupported('call of %s' % '::'.join(f[1]))
             self.ensure(fi)
-            if not fi.pure or fi.inouts: raise Impure()
-            args = [self.pure(a, ctx) for a in e[2]]
+            if fi.state == 'busy' or not fi.pure or fi.inouts: raise Impure()
+            args = [self.pure(a, ctx) for a in self.adapt_args(fi, e[2], ctx)]
             return (self.call_term(fi, [a[0] for a in args], ctx), fi.ret_t)
         if t == 'mcall':
-            if e[2] in self.MUT_VEC or e[2] in ('last_mut', 'shrink_to_fit', 'for_each', 'filter', 'then', 'contains'): raise Impure()
+            if e[2] in self.MUT_VEC or e[2] in ('last_mut', 'shrink_to_fit', 'for_each', 'filter', 'then', 'contains', 'and_then', 'fold', 'collect', 'ok_or_else', 'ok_or', 'sum', 'max'): raise Impure()
             recv, rt = self.pure(e[1], ctx)
             args = [self.pure(a, ctx) for a in e[3]] if not any(strip_paren(a)[0] == 'closure' for a in e[3]) else None
             if args is None: raise Impure()
-            if e[2] in self.MUT_VEC or e[2] in ('last_mut', 'shrink_to_fit', 'for_each', 'filter', 'then', 'contains'): raise Impure()
+            if e[2] in self.MUT_VEC or e[2] in ('last_mut', 'shrink_to_fit', 'for_each', 'filter', 'then', 'contains', 'and_then', 'fold', 'collect', 'ok_or_else', 'ok_or', 'sum', 'max'): raise Impure()
             b = self.builtin_method(rt, e[2], recv, args, ctx)
             if b is not None:
                 if b[0] == 'eff': raise Impure()
@@ -660,7 +823,7 @@ class Translator:
                 fi = self.crate.lookup(rt[1], e[2])
                 if fi is None: raise Unsupported('method %s::%s' % (rt[1], e[2]))
                 self.ensure(fi)
-                if not fi.pure or fi.inouts: raise Impure()
+                if fi.state == 'busy' or not fi.pure or fi.inouts: raise Impure()
                 return (self.call_term(fi, [recv] + [a[0] for a in args], ctx), fi.ret_t)
             raise Unsupported('method .%s on %r' % (e[2], rt))
         if t == 'if':
@@ -684,7 +847,7 @@ class Translator:
             for fn_, fe in e[2]:
                 a, at = self.pure(fe, ctx); parts.append('%s := %s' % (fm[fn_], a))
             return ('({ %s } : %s)' % (', '.join(parts), self.sinfo(name)[0]), ('struct', name))
-        if t in ('index', 'try', 'iflet', 'closure', 'match', 'macro', 'return', 'break', 'continue', 'assign', 'while', 'whilelet', 'loop', 'for', 'cfg'):
+        if t in ('index', 'try', 'iflet', 'closure', 'range', 'match', 'macro', 'return', 'break', 'continue', 'assign', 'while', 'whilelet', 'loop', 'for', 'cfg'):
             raise Impure()
         raise Unsupported('expression %s' % t)
 
@@ -692,7 +855,8 @@ class Translator:
         """a pure boolean expression as a decidable proposition (for `if`)"""
         e = strip_paren(e)
         if e[0] == 'binary' and e[1] in CMP:
-            a, _ = self.pure(e[2], ctx); b, bt = self.pure(e[3], ctx)
+            a, at = self.pure(e[2], ctx); b, bt = self.pure(e[3], ctx)
+            if at == 'isize' or bt == 'isize': return '(%s : Int) %s %s' % (paren(a), CMP[e[1]], paren(b))
             return '%s %s %s' % (paren(a), CMP[e[1]], paren(b))
         if e[0] == 'binary' and e[1] in ('&&', '||'):
             return '(%s) %s (%s)' % (self.cond(e[2], ctx), '∧' if e[1] == '&&' else '∨', self.cond(e[3], ctx))
@@ -728,6 +892,14 @@ class Translator:
 
     def call_term(self, fi, args, ctx):
         name = self.lean_fn_name(fi)
+        if fi.state == 'busy':
+            # a recursive call: the callee is the function being translated; it takes the remaining fuel
+            if fi is not ctx.fi: raise Unsupported('mutual recursion through %s' % fi.name)
+            ctx.eff = True; ctx.uses_c = True
+            return '(' + ' '.join([name, 'c', 'fuel'] + [paren(a) for a in args]) + ')'
+        if fi.recursive:
+            ctx.uses_c = True
+            return '(' + ' '.join([name, 'c', 'RS.FUEL'] + [paren(a) for a in args]) + ')'
         parts = [name] + ([ctx.c()] if fi.uses_c else []) + [paren(a) for a in args]
         return '(' + ' '.join(parts) + ')' if len(parts) > 1 else name
 
@@ -745,6 +917,19 @@ class Translator:
         except Impure:
             return self.tr_impure(strip_paren(e), ctx, k, hint)
         return k(term, ty)
+
+    def adapt_args(self, fi, args, ctx, offset=0):
+        """`x.iter()` passed to a parameter of iterator type becomes the list of items of `x`"""
+        out = []
+        for i, a in enumerate(args):
+            pt = fi.params_t[i + offset] if fi.params_t and i + offset < len(fi.params_t) else None
+            a0 = strip_paren(a)
+            if pt and pt[0] == 'list' and a0[0] == 'mcall' and not a0[3]:
+                rt = self.typeof(a0[1], ctx)
+                if rt and rt[0] == 'struct' and (rt[1], a0[2]) in ITER_AS_LIST:
+                    out.append(('leanapp', ITER_AS_LIST[(rt[1], a0[2])], a0[1])); continue
+            out.append(a)
+        return out
 
     def tr_list(self, es, ctx, k, acc=None):
         acc = acc or []
@@ -772,7 +957,13 @@ class Translator:
             inner = strip_paren(e[2])
             if e[1] == '*' and inner[0] == 'path' and inner[1][0] in ctx.aliases:
                 return self.to_place(e, ctx, lambda p: self.read_place(p, ctx, k, hint))
-            return self.tr(e[2], ctx, lambda a, at: k(*self.unary_term(e[1], a, at)))
+            def after_u(a, at):
+                u = self.unary_term(e[1], a, at)
+                if u[0] == 'eff':
+                    ctx.uses_c = True
+                    return self.bind(ctx, u[1], u[2], k, hint)
+                return k(*u)
+            return self.tr(e[2], ctx, after_u)
         if t == 'path':   # an alias read
             return self.to_place(e, ctx, lambda p: self.read_place(p, ctx, k, hint))
         if t == 'cast':
@@ -794,8 +985,11 @@ class Translator:
                 if not vt or vt[0] != 'vec': raise Unsupported('indexing a %r' % (vt,))
                 return self.bind(ctx, 'RS.index %s %s' % (paren(v), paren(i)), vt[1], k, hint)
             return self.tr_list([e[1], e[2]], ctx, after)
+        if t == 'range' and e[1] is not None and e[2] is not None and not e[3]:
+            return self.tr_list([e[1], e[2]], ctx, lambda vs: k('(%s, %s)' % (vs[0][0], vs[1][0]), 'range'))
         if t == 'field':
             def after(a, at):
+                if at == 'range' and e[2] in ('start', 'end'): return k('%s.%s' % (paren(a), '1' if e[2] == 'start' else '2'), 'usize')
                 if at and at[0] == 'tuple' and e[2].isdigit(): return k(self.tuple_proj(a, int(e[2]), len(at[1])), at[1][int(e[2])])
                 if at and at[0] == 'struct' and self.has_struct(at[1]):
                     return k('%s.%s' % (paren(a), self.sinfo(at[1])[1][e[2]]), self.crate.ftype(at[1], e[2]))
@@ -809,17 +1003,47 @@ class Translator:
             n = f[1][-1]
             if n in ('Some', 'Ok') and len(e[2]) == 1:
                 return self.tr(e[2][0], ctx, lambda a, at: k(('some %s' if n == 'Some' else 'RS.Res.ok %s') % paren(a), ('opt' if n == 'Some' else 'res', at)))
+            if len(f[1]) == 1 and n in ctx.fnvars:
+                cterm, f1, f2 = ctx.fnvars[n]
+                if f1.inouts or f2.inouts or f1.ret_t != f2.ret_t: raise Unsupported('function-valued local %s' % n)
+                def after_fv(vs):
+                    a1 = self.call_term(f1, [v for v, _ in vs], ctx); a2 = self.call_term(f2, [v for v, _ in vs], ctx)
+                    if f1.pure and f2.pure: return k('(if %s then %s else %s)' % (cterm, a1, a2), f1.ret_t)
+                    m1 = a1 if not f1.pure else '.ok %s' % a1; m2 = a2 if not f2.pure else '.ok %s' % a2
+                    return self.bind(ctx, '(if %s then %s else %s : R _)' % (cterm, m1, m2), f1.ret_t, k, hint)
+                return self.tr_list(e[2], ctx, after_fv)
             if len(f[1]) == 2 and f[1][0] == 'Vec' and n == 'with_capacity' and len(e[2]) == 1:
                 return self.tr(e[2][0], ctx, lambda a, at: k('#[]', ('vec', None)))
+            if f[1][-2:] == ['usize', 'from'] and len(e[2]) == 1: return self.tr(('cast', e[2][0], ('path', ['usize'], [])), ctx, k, hint)
+            if len(f[1]) == 2 and f[1][0] in ('u8', 'u16', 'u32') and n == 'try_from' and len(e[2]) == 1:
+                lim = {'u8': 256, 'u16': 65536, 'u32': 4294967296}[f[1][0]]
+                return self.tr(e[2][0], ctx, lambda a, at: k('(if %s < %d then RS.Res.ok %s else RS.Res.err)' % (paren(a), lim, paren(a)), ('res', 'usize')))
+            if len(f[1]) >= 2 and f[1][-2] in self.crate.traits and e[2]:
+                return self.tr(('mcall', e[2][0], n, e[2][1:], None), ctx, k, hint)
             fi = self.resolve_path_fn(f[1], ctx)
             if fi is None: raise Unsupported('call of %s' % '::'.join(f[1]))
             self.ensure(fi)
-            if fi.inouts: raise Unsupported('call of %s with &mut parameters' % fi.name)
+            if fi.inouts:
+                # arguments passed as `&mut place` are rebound from the returned tuple
+                pnames = [p[1][1] if p[0] == 'param' and p[1][0] == 'pid' else ('self' if p[0] == 'self' else '_') for p in fi.ast[3]]
+                io_idx = [i for i, n_ in enumerate(pnames) if n_ in fi.inouts]
+                def collect(i, places, vals):
+                    if i == len(e[2]):
+                        term = self.call_term(fi, vals, ctx); ctx.eff = True
+                        pr = ctx.fresh('r'); nio = len(io_idx); tot = nio + 1
+                        def write(j):
+                            if j == nio: return k(self.tuple_proj(pr, nio, tot), fi.ret_t)
+                            return self.write_place(places[io_idx[j]], self.tuple_proj(pr, j, tot), fi.params_t[io_idx[j]], ctx, lambda: write(j + 1))
+                        return '%s.bind fun %s =>\n%s' % (paren(term if not fi.pure else '.ok %s' % term), pr, write(0))
+                    if i in io_idx:
+                        return self.to_place(e[2][i], ctx, lambda p: self.read_place(p, ctx, lambda v, vt: collect(i + 1, {**places, i: p}, vals + [v])))
+                    return self.tr(e[2][i], ctx, lambda v, vt: collect(i + 1, places, vals + [v]))
+                return collect(0, {}, [])
             def after(vs):
                 term = self.call_term(fi, [v for v, _ in vs], ctx)
                 if fi.pure: return k(term, fi.ret_t)
                 return self.bind(ctx, term, fi.ret_t, k, hint)
-            return self.tr_list(e[2], ctx, after)
+            return self.tr_list(self.adapt_args(fi, e[2], ctx), ctx, after)
         if t == 'mcall':
             return self.tr_mcall(e, ctx, k, hint)
         if t == 'try':
@@ -874,6 +1098,59 @@ class Translator:
                 (lo, _), (hi, _), (x, _) = vs
                 return k('(decide (%s ≤ %s) && decide (%s %s %s))' % (paren(lo), paren(x), paren(x), '≤' if r0[3] else '<', paren(hi)), 'bool')
             return self.tr_list([r0[1], r0[2], args_ast[0]], ctx, after_c)
+        # `opt.and_then(|x| body)`
+        if m == 'and_then' and clo is not None and len(clo[1]) == 1 and rt and rt[0] == 'opt':
+            pat = clo[1][0][0]
+            while pat[0] == 'pref': pat = pat[1]
+            if pat[0] != 'pid': raise Unsupported('closure pattern')
+            def after_at(a, at):
+                v = ctx.fresh(pat[1]); saved = dict(ctx.env); ctx.bind_var(pat[1], v, at[1] if at else None)
+                rty = [None]
+                def kk(b, bt): rty[0] = bt; return '.ok %s' % paren(b)
+                inner = self.tr(clo[2], ctx, kk)
+                ctx.env = saved
+                return self.bind(ctx, '(match %s with\n  | none => .ok none\n  | some %s =>\n%s : R _)' % (a, v, indent(inner, 4)), rty[0], k, hint)
+            return self.tr(recv_ast, ctx, after_at)
+        # `opt.ok_or_else(|| err)` / `ok_or(err)`: Option -> Result (the error value is not modelled)
+        if m in ('ok_or_else', 'ok_or') and rt and rt[0] == 'opt':
+            return self.tr(recv_ast, ctx, lambda a, at: k('(match %s with | some v_ => RS.Res.ok v_ | none => RS.Res.err)' % a, ('res', at[1] if at else None)))
+        # `(lo..hi).fold(init, |acc, i| body)`
+        if m == 'fold' and clo is not None and len(clo[1]) == 2 and r0[0] == 'range' and r0[1] is not None and r0[2] is not None and not r0[3]:
+            pa, pi = clo[1][0][0], clo[1][1][0]
+            if pa[0] != 'pid' or pi[0] != 'pid': raise Unsupported('closure pattern')
+            def after_f(vs):
+                (lo, _), (hi, _), (ini, it_) = vs
+                saved = dict(ctx.env)
+                av = ctx.fresh(pa[1]); iv = ctx.fresh(pi[1]); ctx.bind_var(pa[1], av, it_); ctx.bind_var(pi[1], iv, 'usize')
+                inner = self.tr(clo[2], ctx, lambda b, bt: '.ok %s' % paren(b))
+                ctx.env = saved
+                return self.bind(ctx, 'RS.forRange %s %s %s\n  (fun %s %s =>\n%s)' % (paren(lo), paren(hi), paren(ini), iv, av, indent(inner, 4)), it_, k, hint)
+            return self.tr_list([r0[1], r0[2], args_ast[0]], ctx, after_f)
+        # `v.iter().map(|x| pure).collect()`
+        if m == 'collect' and r0[0] == 'mcall' and r0[2] == 'map' and r0[3] and strip_paren(r0[3][0])[0] in ('closure', 'path'):
+            c2 = strip_paren(r0[3][0]); src = strip_paren(r0[1])
+            if c2[0] == 'path':     # `.map(Type::f)` is `.map(|x| Type::f(x))`
+                c2 = ('closure', [(('pid', 'x__', False, False), None)], ('call', c2, [('path', ['x__'], None)]))
+            if src[0] == 'mcall' and src[2] in ('iter', 'into_iter') and len(c2[1]) == 1:
+                pat = c2[1][0][0]
+                while pat[0] == 'pref': pat = pat[1]
+                def after_m(v, vt):
+                    if not vt or vt[0] != 'vec': raise Unsupported('map over %r' % (vt,))
+                    saved = dict(ctx.env); x = '_'
+                    if pat[0] == 'pid': x = ctx.fresh(pat[1]); ctx.bind_var(pat[1], x, vt[1])
+                    elif pat[0] != 'pwild': raise Unsupported('closure pattern')
+                    try:
+                        b, bt = self.pure(c2[2], ctx)
+                    except Impure:
+                        rty = [None]
+                        def kk(b2, bt2): rty[0] = bt2; return '.ok %s' % paren(b2)
+                        inner = self.tr(c2[2], ctx, kk)
+                        ctx.env = saved
+                        return self.bind(ctx, 'Array.mapM (fun %s =>\n%s) %s' % (x, indent(inner, 4), paren(v)), ('vec', rty[0]), k, hint)
+                    finally:
+                        ctx.env = saved
+                    return k('(%s.map fun %s => %s)' % (paren(v), x, b), ('vec', bt))
+                return self.tr(src[1], ctx, after_m)
         # `cond.then(|| v)`
         if m == 'then' and clo is not None and not clo[1]:
             def after_b(b, bt):
@@ -913,6 +1190,10 @@ class Translator:
                 mterm = '(match %s with\n  | none => %s\n  | some %s =>\n%s : R _)' % (a, none_b, v, indent(some_b, 4))
                 return self.bind(ctx, mterm, rty, k, hint)
             return self.tr(recv_ast, ctx, after)
+        if rt and rt[0] == 'struct' and m == 'max' and not args_ast and self.crate.lookup(rt[1], 'next') is not None and self.crate.lookup(rt[1], 'max') is None:
+            # `Iterator::max` over a crate iterator, written out as the loop it is
+            e2 = rust_expr('{ let mut it__ = RECV__; let mut m__ = None; while let Some(x__) = it__.next() { m__ = match m__ { None => Some(x__), Some(y__) => Some(if x__ >= y__ { x__ } else { y__ }) }; } m__ }', RECV__=recv_ast)
+            return self.tr(e2, ctx, k, hint)
         # crate methods taking `&mut self`: the receiver is a place that is rebound
         if rt and rt[0] == 'struct':
             fi = self.crate.lookup(rt[1], m)
@@ -934,9 +1215,11 @@ class Translator:
                 term = self.call_term(fi, [v for v, _ in vs], ctx)
                 if fi.pure: return k(term, fi.ret_t)
                 return self.bind(ctx, term, fi.ret_t, k, hint)
-            return self.tr_list([recv_ast] + args_ast, ctx, after)
+            return self.tr_list([recv_ast] + self.adapt_args(fi, args_ast, ctx, 1), ctx, after)
         # mutating Vec methods in value position are statements
-        if rt and rt[0] == 'vec' and m in ('push', 'clear', 'shrink_to_fit', 'pop', 'truncate', 'resize'):
+        if rt and rt[0] == 'vec' and m == 'sum' and not args_ast:
+            return self.tr(recv_ast, ctx, lambda v, vt: self.bind(ctx, 'RS.sum %s %s' % (ctx.c(), paren(v)), 'usize', k, hint))
+        if rt and rt[0] == 'vec' and m in ('push', 'clear', 'shrink_to_fit', 'pop', 'truncate', 'resize', 'extend_from_slice'):
             return self.tr_vec_mutation(e, rt, ctx, lambda: k('()', 'unit'))
         if rt and rt[0] == 'vec' and m == 'last_mut':
             raise Unsupported('last_mut outside `let x = v.last_mut().unwrap()`')
@@ -955,6 +1238,7 @@ class Translator:
             def with_place(p):
                 def with_v(v, vt):
                     if m == 'push' and len(vs) == 1: new = '%s.push %s' % (paren(v), paren(vs[0][0]))
+                    elif m == 'extend_from_slice' and len(vs) == 1: new = '%s ++ %s' % (paren(v), paren(vs[0][0]))
                     elif m == 'clear' and not vs: new = '#[]'
                     else: raise Unsupported('Vec::%s' % m)
                     return self.write_place(p, new, rt, ctx, k0)
@@ -1031,11 +1315,15 @@ class Translator:
     def write_place(self, p, val, vt, ctx, k0):
         if p[0] == 'var':
             n = p[1]; old_t = ctx.lookup(n)[1]
+            k1 = k0
+            if n in ctx.writeback:
+                parent = ctx.writeback[n]
+                k1 = lambda: self.write_place(parent, 'some %s' % ctx.lookup(n)[0], ('opt', old_t), ctx, k0)
             if re.match(r'^[A-Za-z_][A-Za-z0-9_\']*$', val):
-                ctx.bind_var(n, val, old_t or vt); return k0()
+                ctx.bind_var(n, val, old_t or vt); return k1()
             v = ctx.fresh(n)
             ctx.bind_var(n, v, old_t or vt)
-            return 'let %s := %s\n%s' % (v, val, k0())
+            return 'let %s := %s\n%s' % (v, val, k1())
         if p[0] == 'field':
             def after(b, bt):
                 if not (bt and bt[0] == 'struct' and self.has_struct(bt[1])): raise Unsupported('field write on %r' % (bt,))
@@ -1137,7 +1425,7 @@ class Translator:
             return n
         return None
 
-    MUT_VEC = {'push', 'clear', 'pop', 'truncate', 'resize', 'extend'}
+    MUT_VEC = {'push', 'clear', 'pop', 'truncate', 'resize', 'extend', 'extend_from_slice'}
 
     def assigned_roots(self, node, ctx):
         """outer variables that `node` may assign (conservative), in a stable order"""
@@ -1152,6 +1440,8 @@ class Translator:
                 init = strip_paren(n[3])
                 if init[0] == 'mcall' and init[2] == 'unwrap' and strip_paren(init[1])[0] == 'mcall' and strip_paren(init[1])[2] == 'last_mut':
                     local_alias[n[1][1]] = self.root_of(init, ctx)
+            elif n[0] == 'unary' and n[1] == '&mut':
+                r = self.root_of(n[2], ctx); add(local_alias.get(r, r))
             elif n[0] == 'mcall':
                 m = n[2]
                 mut = m in self.MUT_VEC or any(f_.ast[3] and f_.ast[3][0] == ('self', 'refmut') for f_ in self.crate.by_name.get(m, []))
@@ -1229,6 +1519,7 @@ class Translator:
         t = pat[0]
         if t == 'pwild': return '_'
         if t == 'pid':
+            if pat[3]: raise Unsupported('`ref` pattern')
             v = ctx.fresh(pat[1]); ctx.bind_var(pat[1], v, ty); return v
         if t == 'pref': return self.pattern_lean(pat[1], ty, ctx)
         if t == 'ptstruct' and pat[1][-1] == 'Some' and len(pat[2]) == 1:
@@ -1252,6 +1543,7 @@ class Translator:
         else:
             scrut = e[1]; arms = e[2]
         if any(g is not None for _, g, _ in arms): raise Unsupported('match guard')
+        wb_place = [None]
         def with_scrut(s, st):
             bodies = [b if b[0] == 'block' else ('block', [], b) for _, _, b in arms]
             jumps = any(self.has_jump(b) for b in bodies)
@@ -1268,7 +1560,10 @@ class Translator:
             for (pat, _, _), body in zip(arms, bodies):
                 ctx.env = dict(saved_env); ctx.aliases = dict(saved_alias)
                 lp = self.pattern_lean(pat, st, ctx)
+                saved_wb = dict(ctx.writeback)
+                if wb_place[0] is not None and pat[0] == 'ptstruct': ctx.writeback[pat[2][0][1]] = wb_place[0]
                 code = self.tr_block(body, ctx, k if jumps else kend)
+                ctx.writeback = saved_wb
                 out.append('  | %s =>\n%s' % (lp, indent(code, 4)))
             ctx.env = dict(saved_env); ctx.aliases = dict(saved_alias)
             m = 'match %s with\n%s' % (s, '\n'.join(out))
@@ -1289,6 +1584,13 @@ class Translator:
                 if body.strip() == '.ok %s' % p: return '(' + m + ')'
                 return '(%s : R _).bind fun %s =>\n%s' % (m, p, body)
             return '(%s : R _).bind fun %s =>\n%s%s' % (m, p, ''.join(l + '\n' for l in lets), k(val, vt))
+        sc0 = strip_paren(scrut)
+        if sc0[0] == 'unary' and sc0[1] == '&mut':
+            # `if let Some(x) = &mut place { … }`: x refers into `place`; its updates are written back
+            for pat, _, _ in arms:
+                if not (pat[0] == 'pwild' or (pat[0] == 'ppath' and pat[1][-1] == 'None') or (pat[0] == 'ptstruct' and pat[1][-1] == 'Some' and len(pat[2]) == 1 and pat[2][0][0] == 'pid')):
+                    raise Unsupported('pattern over a `&mut` scrutinee')
+            return self.to_place(sc0[2], ctx, lambda p: (wb_place.__setitem__(0, p), self.read_place(p, ctx, lambda v, vt: with_scrut(v, vt)))[1])
         return self.tr(scrut, ctx, with_scrut, 'm')
 
     # ---- blocks, statements, loops ------------------------------------------------------------------
@@ -1353,6 +1655,22 @@ class Translator:
         if init is None or els is not None: raise Unsupported('let without initialiser / let-else')
         init = strip_paren(init)
         decl_t = conv_type(ty_ast, ctx) if ty_ast is not None else None
+        # `let w = { if cond { Self::f } else { Self::g } };`  -> a function selected by a condition
+        sel = init
+        while sel[0] == 'block' and not sel[1] and sel[2] is not None: sel = strip_paren(sel[2])
+        if pat[0] == 'pid' and sel[0] == 'if' and sel[3] is not None:
+            def single_path(b):
+                b = strip_paren(b)
+                while b[0] == 'block' and not b[1] and b[2] is not None: b = strip_paren(b[2])
+                return b if b[0] == 'path' and len(b[1]) >= 2 else None
+            p1, p2 = single_path(sel[2]), single_path(sel[3])
+            if p1 is not None and p2 is not None:
+                f1, f2 = self.resolve_path_fn(p1[1], ctx), self.resolve_path_fn(p2[1], ctx)
+                if f1 is not None and f2 is not None:
+                    self.ensure(f1); self.ensure(f2)
+                    cterm = self.cond(sel[1], ctx)
+                    declared.append(pat[1]); ctx.fnvars[pat[1]] = (cterm, f1, f2)
+                    return rest()
         # `let x = v.last_mut().unwrap();`  -> x aliases the last element of v
         if pat[0] == 'pid' and init[0] == 'mcall' and init[2] == 'unwrap' and strip_paren(init[1])[0] == 'mcall' and strip_paren(init[1])[2] == 'last_mut':
             vec_ast = strip_paren(init[1])[1]
@@ -1424,7 +1742,12 @@ class Translator:
                 return '(%s).bind fun %s =>\n%s' % (loop_term, v, k0())
             return '(%s).bind fun %s =>\n%s%s' % (loop_term, st, self.unpack_state(names, st, ctx), k0())
         ex = ctx.fresh('ex'); rv = ctx.fresh('rv'); st = ctx.fresh('st')
-        ret = self.emit_return_raw(rv, ctx, len(ctx.frames) - 1)
+        if ctx.frames[-1].kind == 'loop_simple':
+            # the inner loop only `break`s (a `return` would have made the enclosing loop a Step loop): no early return to propagate
+            loop_term = loop_term.replace('RS.loopB ', 'RS.loopB (ρ := Empty) ', 1).replace('RS.forRangeB ', 'RS.forRangeB (ρ := Empty) ', 1).replace('RS.forListB', 'RS.forListB (ρ := Empty)', 1)
+            ret = 'nomatch %s' % rv
+        else:
+            ret = self.emit_return_raw(rv, ctx, len(ctx.frames) - 1)
         lets = self.unpack_state(names, st, ctx)
         return '(%s).bind fun %s =>\nmatch %s with\n  | .ret %s => %s\n  | .done %s =>\n%s' % (loop_term, ex, ex, rv, ret, st, indent(lets + k0(), 4))
 
@@ -1449,9 +1772,30 @@ class Translator:
         names = self.loop_state(body, ctx); step = self.needs_step(body)
         init = self.state_term(names, ctx)
         suffix = 'B' if step else ''
-        if it[0] == 'range' and it[1] is not None and it[2] is not None and not it[3]:
+        # `.iter()` on a vector is the vector; `(a..b).rev()`; `v.iter().enumerate()`
+        rev = False; enum = False
+        if it[0] == 'mcall' and it[2] == 'rev' and not it[3] and strip_paren(it[1])[0] == 'range':
+            rev = True; it = strip_paren(it[1])
+        if it[0] == 'mcall' and it[2] == 'enumerate' and not it[3]:
+            enum = True; it = strip_paren(it[1])
+        def bind_loop_pat(p, elem_t):
+            """-> (lambda binder name, `let` lines binding the pattern's names)"""
+            while p[0] == 'pref': p = p[1]
+            if p[0] == 'pwild': return '_', ''
+            if p[0] == 'pid':
+                iv = ctx.fresh(p[1]); ctx.bind_var(p[1], iv, elem_t); return iv, ''
+            if p[0] == 'ptuple':
+                iv = ctx.fresh('it'); return iv, self.bind_pattern(p, iv, elem_t, ctx, [])
+            raise Unsupported('for pattern')
+        if it[0] == 'range' and it[1] is not None and it[2] is not None:
+            inclusive = it[3]
             def after(vs):
                 (lo, _), (hi, _) = vs
+                if inclusive: hi = '(%s + 1)' % paren(hi)
+                if rev:
+                    saved = dict(ctx.env); iv, pre = bind_loop_pat(pat, 'usize')
+                    fn_ = self.loop_body(body, names, step, ctx, iv + ' ', pre); ctx.env = saved
+                    return self.after_loop('RS.forRangeRev%s %s %s %s\n%s' % (suffix, paren(lo), paren(hi), paren(init), indent(fn_)), names, step, ctx, k0)
                 saved = dict(ctx.env)
                 iv = '_'
                 if pat[0] == 'pid': iv = ctx.fresh(pat[1]); ctx.bind_var(pat[1], iv, 'usize')
@@ -1460,15 +1804,42 @@ class Translator:
                 ctx.env = saved
                 return self.after_loop('RS.forRange%s %s %s %s\n%s' % (suffix, paren(lo), paren(hi), paren(init), indent(fn_)), names, step, ctx, k0)
             return self.tr_list([it[1], it[2]], ctx, after)
+        if it[0] == 'mcall' and it[2] == 'step_by' and strip_paren(it[1])[0] == 'range' and len(it[3]) == 1:
+            r = strip_paren(it[1])
+            if r[1] is None or r[2] is None or r[3]: raise Unsupported('step_by range')
+            def after_s(vs):
+                (lo, _), (hi, _), (st_, _) = vs
+                saved = dict(ctx.env); iv = '_'
+                if pat[0] == 'pid': iv = ctx.fresh(pat[1]); ctx.bind_var(pat[1], iv, 'usize')
+                elif pat[0] != 'pwild': raise Unsupported('for pattern')
+                fn_ = self.loop_body(body, names, step, ctx, iv + ' ')
+                ctx.env = saved
+                return self.after_loop('RS.forStep%s %s %s %s %s\n%s' % (suffix, paren(lo), paren(hi), paren(st_), paren(init), indent(fn_)), names, step, ctx, k0)
+            return self.tr_list([r[1], r[2], it[3][0]], ctx, after_s)
         def after_it(v, vt):
+            if vt and vt[0] == 'struct' and self.crate.lookup(vt[1], 'next') is not None and not enum:
+                # the iterator protocol: `let mut it = …; while let Some(pat) = it.next() { body }`
+                name = '__it%d' % ctx.counter.get('__it', 0); ctx.counter['__it'] = ctx.counter.get('__it', 0) + 1
+                ctx.bind_var(name, v, vt)
+                loop = ('whilelet', ('ptstruct', ['Some'], [pat]), ('mcall', ('path', [name], None), 'next', [], None), body)
+                return self.tr_stmt_expr(loop, ctx, k0)
+            if enum and vt and vt[0] in ('vec', 'list'):
+                lst = '(RS.enumerate %s)' % (v if vt[0] == 'list' else '%s.toList' % paren(v))
+                saved = dict(ctx.env); iv, pre = bind_loop_pat(pat, ('tuple', ['usize', vt[1]]))
+                fn_ = self.loop_body(body, names, step, ctx, iv + ' ', pre); ctx.env = saved
+                return self.after_loop('RS.forList%s\n%s\n  %s %s' % (suffix, indent(fn_), lst, paren(init)), names, step, ctx, k0)
+            if vt == 'range':
+                saved = dict(ctx.env); iv = '_'
+                if pat[0] == 'pid': iv = ctx.fresh(pat[1]); ctx.bind_var(pat[1], iv, 'usize')
+                elif pat[0] != 'pwild': raise Unsupported('for pattern')
+                fn_ = self.loop_body(body, names, step, ctx, iv + ' ')
+                ctx.env = saved
+                return self.after_loop('RS.forRange%s %s.1 %s.2 %s\n%s' % (suffix, paren(v), paren(v), paren(init), indent(fn_)), names, step, ctx, k0)
             if not vt or vt[0] not in ('vec', 'list'): raise Unsupported('for over %r' % (vt,))
             lst = v if vt[0] == 'list' else '%s.toList' % paren(v)
             saved = dict(ctx.env)
-            p = pat[1] if pat[0] == 'pref' else pat
-            iv = '_'
-            if p[0] == 'pid': iv = ctx.fresh(p[1]); ctx.bind_var(p[1], iv, vt[1])
-            elif p[0] != 'pwild': raise Unsupported('for pattern')
-            fn_ = self.loop_body(body, names, step, ctx, iv + ' ')
+            iv, pre = bind_loop_pat(pat, vt[1])
+            fn_ = self.loop_body(body, names, step, ctx, iv + ' ', pre)
             ctx.env = saved
             return self.after_loop('RS.forList%s\n%s\n  %s %s' % (suffix, indent(fn_), paren(lst), paren(init)), names, step, ctx, k0)
         return self.tr(it, ctx, after_it, 'it')
@@ -1510,7 +1881,8 @@ class Translator:
     def ensure(self, fi):
         if fi.state == 'done': return
         if fi.state == 'failed': raise Unsupported('%s::%s is not translated (%s)' % (fi.k[0], fi.k[1], fi.error))
-        if fi.state == 'busy': raise Unsupported('recursion through %s' % fi.name)
+        if fi.state == 'busy':
+            fi.recursive = True; return
         fi.state = 'busy'
         try:
             self.translate_fn(fi)
@@ -1536,7 +1908,7 @@ class Translator:
                 if pat[0] == 'pwild': name = '_'
                 elif pat[0] == 'pid': name = pat[1]
                 else: raise Unsupported('parameter pattern')
-                if ty[0] == 'ref' and ty[1]: raise Unsupported('&mut parameter %s' % name)
+                if ty[0] == 'ref' and ty[1]: inouts.append(name)
                 params.append((name, conv_type(ty, ctx0)))
         ret_t = conv_type(ast[4], ctx0)
         fi.ret_t = ret_t; fi.inouts = inouts; fi.params_t = [t for _, t in params]
@@ -1553,11 +1925,16 @@ class Translator:
             body = self.tr_block(ast[5], ctx, lambda v, vt: self.emit_return(v, ctx))
             return body, ctx
         body, ctx = run(False)
-        effectful = ctx.eff or bool(re.search(r'\.bind\b|\.error\b|RS\.(forRange|forList|whileLoop|loopB)', body))
+        effectful = ctx.eff or bool(re.search(r'\.bind\b|\.error\b|RS\.(forRange|forRangeRev|forList|forStep|whileLoop|loopB)', body))
         if not effectful:
             body, ctx = run(True)
-        fi.pure = not effectful; fi.uses_c = ctx.uses_c
+        if fi.recursive: effectful = True
+        fi.pure = not effectful; fi.uses_c = ctx.uses_c or fi.recursive
         sig = ''.join(' (%s : %s)' % (n, t) for n, t in lean_params)
+        if fi.recursive:
+            # structural recursion on an explicit fuel (callers pass RS.FUEL = 2^64); running out is `Panic.fuel`
+            sig = ' (fuel_ : Nat)' + sig
+            body = 'match fuel_ with\n| 0 => .error .fuel\n| fuel + 1 =>\n' + indent(body)
         if fi.uses_c: sig = ' (c : Cfg)' + sig
         rt = full_ret if fi.pure else 'R %s' % full_ret
         name = self.lean_fn_name(fi)
@@ -1571,13 +1948,13 @@ def translate_crate(repo):
     report = {'translated': [], 'untranslated': {}, 'parse_errors': crate.parse_errors}
     for k, fi in sorted(crate.fns.items(), key=lambda kv: (kv[1].path, kv[1].meta['line'])):
         if fi.name in SKIP_FNS or fi.meta.get('cfg') == ('test',): continue
-        if fi.trait in ('Serializable', 'Debug', 'Default', 'Display'): continue
+        if fi.trait in ('Serializable', 'Debug', 'Display'): continue
         try:
             T.ensure(fi)
         except Unsupported as ex:
             report['untranslated']['%s.%s' % k] = str(ex)
     out = ['-- GENERATED by tools/gen_fns.py from the Rust sources of /repo; do not edit.',
-           'import Sucds.Gen.Consts', 'import Sucds.Model.RustSem', 'import Sucds.Model.CompactVector', 'import Sucds.Model.Rank9', 'import Sucds.Model.EliasFano',
+           'import Sucds.Gen.Consts', 'import Sucds.Model.RustSem', 'import Sucds.Model.CompactVector', 'import Sucds.Model.Rank9', 'import Sucds.Model.EliasFano', 'import Sucds.Model.DArray', 'import Sucds.Model.EliasFanoFull', 'import Sucds.Model.Dacs',
            'set_option linter.unusedVariables false', 'namespace Sucds.GenFn', 'open Sucds', '']
     # constants used by the translated bodies
     done = set()
@@ -1592,7 +1969,7 @@ def translate_crate(repo):
     for q in crate.auto_used:
         out.append('/-- `struct %s` — %s (generated: no model structure is configured for it) -/' % (q, crate.struct_home[q]))
         out.append('structure %s where' % q)
-        for f in crate.struct_order[q]: out.append('  %s : %s' % (f, lean_type(crate.ftype(q, f))))
+        for f in crate.struct_order[q]: out.append('  %s : %s' % (crate.auto_fields(q)[f], lean_type(crate.ftype(q, f))))
         out.append('deriving Repr, Inhabited\n')
     for fi in T.order:
         out.append(fi.text)
